@@ -73,7 +73,7 @@ Check(o) ==
     \cup (IF o.kind = "clamped" /\ ~(FLe(CAbs(CSub(P(o, 1, 1).d, o.f0)), A1(o)) /\ FLe(CAbs(CSub(P(o, n - 1, 5).d, o.fn)), A1(o)))
             THEN {"clamped_spline_has_the_prescribed_end_slopes"} ELSE {})
     \cup (IF o.has_src /\ ~Repro(o) THEN {"reproduces_cubics_clamped_and_lines_free"} ELSE {})
-    \cup (IF \E k \in 1..2 : o.obs.pts[n + 5 * (n - 1) + k].ok THEN {"evaluation_outside_the_knot_range_gives_err"} ELSE {})
+    \cup (IF \E k \in 1..2 : o.obs.pts[n + 5 * (n - 1) + k].okv \/ o.obs.pts[n + 5 * (n - 1) + k].okd THEN {"evaluation_outside_the_knot_range_gives_err"} ELSE {})
 
 VARIABLE i
 Init == i = 0
